@@ -13,12 +13,14 @@ CONSTANTS Ptrs, DocSeqs
 
 VisSet == {"pub", "priv"}
 QDocSeqs == {<<>>, <<" a">>, <<" a", " b">>, <<"">>, <<"", " a">>, <<" a", "">>, <<" a", "", " b">>, <<"  indented">>}
-DocItems == {"module", "type", "field", "fn", "vfunc", "enum", "vtype"}
+DocItems == {"module", "type", "field", "fn", "vfunc", "enum", "vtype", "anon"}
 
 MkInput(ptr, vis, marks, emarks, ditem, dlines) ==
   LET dd(item) == IF ditem = item THEN dlines ELSE <<>>
       T == [TypeDef("T", vis.t, <<Field("f", vis.f, dd("field"), TNm("u32"), None, FALSE),
-                                  Field("g", "priv", <<>>, TNm("u32"), 8, FALSE)>>)
+                                  Field("g", "priv", <<>>, TNm("u32"), 8, FALSE),
+                                  (* a user-written anonymous gap: private and undocumented in the output whatever is written *)
+                                  Field("_", vis.u, dd("anon"), TUnk(4), None, FALSE)>>)
               EXCEPT !.doc = dd("type"), !.copyable = marks.copy, !.cloneable = marks.clone,
                      !.defaultable = marks.dflt, !.packed = marks.packed,
                      !.align = IF marks.packed THEN None ELSE 4, !.singleton = 65536]
@@ -35,11 +37,13 @@ MkInput(ptr, vis, marks, emarks, ditem, dlines) ==
       h == Func("h", vis.h, dd("fn"), <<ArgC>>, TNm("u32"), 4096, None, "")
       m == [Module(<<"m">>, <<>>, <<T, V, D, DV, E>>)
               EXCEPT !.doc = dd("module"), !.impls = <<Impl("T", <<h>>)>>,
+                     (* a prologue that holds an item: the module documentation still has to come first *)
+                     !.backs = <<Backend("rust", "use core::ffi::c_void as Opaque;", "pub type Tail = u8;")>>,
                      !.evals = <<ExtVal("gv", vis.g, TNm("u32"), 8192)>>]
   IN [ptr |-> ptr, mods |-> <<m>>]
 
-AllVis == [t : VisSet, f : VisSet, h : VisSet, vf : VisSet, e : VisSet, g : VisSet]
-DefaultVis == [t |-> "pub", f |-> "pub", h |-> "pub", vf |-> "pub", e |-> "pub", g |-> "pub"]
+AllVis == [t : VisSet, f : VisSet, h : VisSet, vf : VisSet, e : VisSet, g : VisSet, u : VisSet]
+DefaultVis == [t |-> "pub", f |-> "pub", h |-> "pub", vf |-> "pub", e |-> "pub", g |-> "pub", u |-> "priv"]
 AllMarks == [copy : BOOLEAN, clone : BOOLEAN, dflt : BOOLEAN, packed : BOOLEAN]
 NoMarks == [copy |-> FALSE, clone |-> FALSE, dflt |-> FALSE, packed |-> FALSE]
 AllEMarks == [copy : BOOLEAN, clone : BOOLEAN, dflt : BOOLEAN]
